@@ -4,8 +4,9 @@
 Model of `mygrad._io.save` / `mygrad._io.load` (src/mygrad/_io.py:11-125) together with the parts of
 `Tensor` they touch:
 
-* the `.grad` property getter (src/mygrad/tensor_base.py:861-948) — for a view it may fill the
-  `_view_grad` cache, which is the only state `save` can write;
+* the `.grad` property getter (src/mygrad/tensor_base.py:861-953) — for a view it may fill the
+  `_view_grad` cache, which is the only state `save` can write; a view of a constant base owns its gradient,
+  a constant view of a non-constant base has none;
 * `tensor(arr)` / `Tensor.__init__` (tensor_base.py:167-270, 749-859): dtype and shape are those of
   the array, `constant` defaults to `not is_float`;
 * `Tensor.backward(grad)` on a tensor without a creator (tensor_base.py:1232-1340): a constant
@@ -47,6 +48,8 @@ structure ViewLink where
   /-- `self._replay_op(view_parent.grad).data` — the view of the parent's gradient (`none` when the
       parent's `.grad` is `None`) -/
   replayed : Option Arr
+  /-- `self._base._constant` -/
+  baseConstant : Bool
   deriving DecidableEq, Repr, Inhabited
 
 structure Tensor where
@@ -61,12 +64,15 @@ structure Tensor where
   writeable : Bool                 -- `.data.flags.writeable`
   deriving DecidableEq, Repr, Inhabited
 
-/-- The `.grad` property getter (tensor_base.py:930-948): returns the possibly updated tensor (the
+/-- The `.grad` property getter (tensor_base.py:930-953): returns the possibly updated tensor (the
     `_view_grad` cache) and the value read. -/
 def Tensor.readGrad (t : Tensor) : Tensor × Option Arr :=
   match t.base with
   | none => (t, t.grad_)
   | some b =>
+    if b.baseConstant then (t, t.grad_)   -- a non-constant view of a constant base owns its gradient
+    else if t.constant then (t, none)     -- a constant view never has a gradient
+    else
     let slow : Tensor × Option Arr :=
       match b.baseGrad, t.creator with
       | some s, some _ => ({ t with viewGrad := b.replayed.map (·, s) }, b.replayed)
